@@ -447,6 +447,20 @@ def generate(repo, outdir, write=True):
     ktexts, kerr = pytrans.generate_kernels(repo)
     texts.update(ktexts)
     errors.update(kerr)
+    # further kernel translators (one module per source area); each provides generate(repo) -> ({file: text}, {tag: error})
+    # and must itself be fail-soft (poisoned definitions on failure, the file always compiles)
+    import importlib
+    for plug in ("pytrans_cms", "pytrans_hh"):
+        try:
+            mod = importlib.import_module(plug)
+        except ImportError:
+            continue
+        try:
+            t2, e2 = mod.generate(repo)
+            texts.update(t2)
+            errors.update(e2)
+        except Exception as e:
+            errors["kernels:" + plug] = f"{type(e).__name__}: {e}"
     changed = []
     os.makedirs(outdir, exist_ok=True)
     for name, txt in texts.items():
